@@ -16,6 +16,18 @@ Two parts of the quantifier that the in-memory transport of the other families c
    a list of ('add'|'remove', uri) applied to session.client_capabilities between the construction of the session
    (transport API: cls(device_handler)) and session.connect(...).
 
+Round 4 (s05) adds what FOLLOWS the server <hello> in the stream, in the direction server -> client ("everything after it
+uses chunked framing iff both peers advertised base:1.1" holds for what the client READS too):
+
+ white space after the hello's delimiter.  Servers commonly end their hello with `]]>]]>\n` (or `\r\n`, blanks).  case['ws'] is
+   0-3 white-space octets that travel in the same send as the last octet of the delimiter (case['ws_gap_ms'] == 0) or in a send of
+   their own that many ms later.
+ replies.  With case['answer'] the peer ANSWERS every request it received completely (in the framing the two hellos on the wire
+   negotiate, by the property's own base:1.1 test; chunked replies cut into case['reply_chunks'] chunks at octet granularity,
+   end-of-message replies followed by case['ws'] again).  The client registers a documented SessionListener before its first
+   request and sends request k+1 after reply k arrived.  The oracle requires every reply to be delivered, once, with the
+   message-id of its request and the text the server sent, no error to be reported to the listeners and the session to stay up.
+
 The peer (servers of harness/hello_deadline.py: paramiko server on a socketpair, TLS on 127.0.0.1, Unix socket file) sends its
 hello as soon as the connection is up, then records every octet the client sends.  After the connect the case sends one or two
 requests with Session.send.  Nothing in ncclient is edited or rebound.  Judged on octets and return values only (judge())."""
@@ -74,25 +86,56 @@ def server_hello(case):
     data = hello_doc(server_caps_of(case), case['sid']) + EOM
     return data
 
+WS_OCTETS = b' \t\r\n'
+def ws_of(case):
+    """the white space the server puts after a delimiter: at most 3 octets of blank / tab / CR / LF"""
+    w = case.get('ws', '').encode()
+    assert len(w) <= 3 and all(o in WS_OCTETS for o in w), w
+    return w
+
 def pieces_of(case, data):
+    """the sends of the server: hello + delimiter cut at case['cuts']; the white space after the delimiter goes with its last octet"""
     cuts = sorted(set(c % (len(data) + 1) for c in case.get('cuts', [])))
     out, a = [], 0
     for c in cuts + [len(data)]:
         if c > a: out.append(data[a:c]); a = c
+    if case.get('ws_gap_ms', 0) and ws_of(case): out.append(ws_of(case))
+    else: out[-1] += ws_of(case)
     return out
+
+def reply_doc(k):
+    return ('<rpc-reply xmlns="%s" message-id="%d"><data>r\u00e9ponse %d &lt;ok&gt;</data></rpc-reply>' % (BASE_NS, k, k)).encode()
+def reply_text(k):
+    return 'r\u00e9ponse %d <ok>' % k
+
+def reply_frame(case, k, chunked):
+    """reply k as the server frames it: RFC 6242 chunks (cut at octet granularity, also inside a character) or end-of-message"""
+    doc = reply_doc(k)
+    if not chunked: return doc + EOM + ws_of(case)
+    n = max(1, min(case.get('reply_chunks', 1), len(doc)))
+    cuts = [len(doc) * i // n for i in range(1, n)]
+    if n > 1: cuts[0] = doc.index('\u00e9'.encode()) + 1            # between the two octets of a character
+    cuts = sorted(set(c for c in cuts if 0 < c < len(doc)))
+    out, a = b'', 0
+    for c in cuts + [len(doc)]:
+        out += b'\n#%d\n' % (c - a) + doc[a:c]; a = c
+    return out + b'\n##\n'
 
 class Peer(HD.Script):
     """sends the pieces of its hello (one sendall each, `gap` s apart), then records what the client sends"""
-    def __init__(self, pieces, gap_ms):
+    def __init__(self, pieces, gap_ms, answer=None, last_gap_ms=0):
+        """answer: None, or (the server advertised base:1.1?, how many requests to answer, frame(k, chunked) -> octets)"""
         HD.Script.__init__(self, 'hello', 0, 0)
-        self.pieces, self.gap = pieces, gap_ms / 1000.0
+        self.pieces, self.gap, self.last_gap = pieces, gap_ms / 1000.0, last_gap_ms / 1000.0
         self.buf = b''
         self.lock = threading.Lock()
+        self.answer, self.answered, self.replies = answer, 0, []
     def _run(self):
         try: self.chan.settimeout(5.0)
         except Exception: pass
         for i, p in enumerate(self.pieces):
             if i and self.gap and self.stop.wait(self.gap): return
+            if i and i == len(self.pieces) - 1 and self.last_gap and self.stop.wait(self.last_gap): return
             self.chan.sendall(p)
         self.sent_at = now()
         try: self.chan.settimeout(0.05)
@@ -106,6 +149,24 @@ class Peer(HD.Script):
                 return
             if not d: return
             with self.lock: self.buf += d
+            if self.answer: self._answer()
+    def _answer(self):
+        """every request received completely, in the framing the two hellos negotiate, gets its reply at once"""
+        s11, n, frame = self.answer
+        first, rest = split_wire(self.buf)
+        if first is None: return
+        listed = hello_caps_of(first)
+        chunked = bool(s11 and listed is not None and has11(listed))
+        have = rest.count(b'\n##\n') if chunked else rest.count(EOM)
+        while self.answered < min(have, n):
+            self.answered += 1
+            f = frame(self.answered, chunked)
+            try: self.chan.settimeout(5.0)
+            except Exception: pass
+            self.chan.sendall(f)
+            try: self.chan.settimeout(0.05)
+            except Exception: pass
+            self.replies.append(f)
     def seen(self):
         with self.lock: return self.buf
     def frames_after_hello(self):
@@ -128,8 +189,16 @@ def apply_history(lst, edits):
 
 def run_case(case):
     from ncclient import manager, transport
+    from ncclient.transport.session import SessionListener
     data = server_hello(case)
-    peer = Peer(pieces_of(case, data), case.get('gap_ms', 0))
+    n_later = case.get('n_later', 1)
+    answer = (has11(server_caps_of(case)), n_later, lambda k, chunked: reply_frame(case, k, chunked)) if case.get('answer') else None
+    peer = Peer(pieces_of(case, data), case.get('gap_ms', 0), answer, case.get('ws_gap_ms', 0) if ws_of(case) else 0)
+    class Rec(SessionListener):
+        def __init__(self): self.got, self.errs = [], []
+        def callback(self, root, raw): self.got.append((out.get('started', 0), root[0], dict(root[1]).get('message-id'), raw))
+        def errback(self, ex): self.errs.append('%s: %s' % (type(ex).__name__, str(ex)[:80]))
+    rec = Rec()
     srv = HD.SRV[case['transport']](peer)
     args, kw = srv.call_args()
     kw['timeout'] = TIMEOUT
@@ -158,10 +227,14 @@ def run_case(case):
             out['sid'] = m.session_id
             out['server_caps'] = list(m.server_capabilities)
             out['client_reported'] = list(m.client_capabilities)
-            sent = []
-            for msg in LATER[:case.get('n_later', 1)]:
+            sent = out['later'] = []
+            if answer: sess.add_listener(rec)
+            for msg in LATER[:n_later]:
+                out['started'] = len(sent) + 1
                 sess.send(msg); sent.append(msg)
-            out['later'] = sent
+                t = now()
+                while answer and len(rec.got) < len(sent) and not rec.errs and sess.connected and now() - t < SETTLE:      # reply k before request k+1
+                    time.sleep(0.002)
         except BaseException as e:
             out['result'] = type(e).__name__; out['message'] = str(e)[:100]
         out['t1'] = now()
@@ -171,13 +244,15 @@ def run_case(case):
     hung = th.is_alive()
     if not hung and out.get('result') == 'ok':
         t1 = now()
-        while peer.frames_after_hello() < len(out['later']) and now() - t1 < SETTLE:
+        while peer.frames_after_hello() < len(out['later']) and now() - t1 < SETTLE and (out['sess'].connected or now() - t1 < 0.3):
             time.sleep(0.005)
     obs = dict(hung=hung, up=peer.up_at is not None, peer_err=peer.err, result=out.get('result', 'hung'), message=out.get('message'),
                hello_sent=peer.sent_at is not None, hello_octets=len(data), n_pieces=len(peer.pieces),
                elapsed=round(out.get('t1', now()) - out.get('t0', now()), 3),
                sid=out.get('sid'), server_caps=out.get('server_caps'), client_reported=out.get('client_reported'),
-               before=out.get('before'), edited=out.get('edited'), later=out.get('later', []), wire=peer.seen())
+               before=out.get('before'), edited=out.get('edited'), later=list(out.get('later', [])), wire=peer.seen(),
+               answered=peer.answered, delivered=[list(g) for g in rec.got], errors=list(rec.errs),
+               connected=bool(getattr(out.get('sess'), 'connected', False)))
     s = out.get('sess')
     if s is not None:
         try: s.close()
@@ -220,6 +295,10 @@ def judge(case, obs):
         return [('the peer never saw the connection come up (harness)', 'connection up', obs.get('peer_err') or obs['result'])]
     if obs['hung']:
         return [('connect hangs although the server sent its hello (%s)' % how_sent(case, obs), 'ok', 'still blocked after %.1fs' % obs['elapsed'])]
+    if obs['result'] != 'ok' and obs.get('sid') is not None:
+        return [('connect succeeded, then request %d was refused (%s: %s)%s; %s' % (len(obs['later']) + 1, obs['result'], obs['message'],
+                 ' after the session reported %s' % obs['errors'][0][:90] if obs.get('errors') else '', describe_after(case)),
+                 'request sent', obs['result'])]
     if obs['result'] != 'ok':
         return [('connect failed (%s: %s) although the server sent a well-formed <hello> completely and at once (%s)'
                  % (obs['result'], obs['message'], how_sent(case, obs)), 'ok', obs['result'])]
@@ -257,7 +336,58 @@ def judge(case, obs):
         out.append(('framing after the hello is %s, but the client <hello> on the wire %s base:1.1 and the server <hello> %s it'
                     % (got, 'advertised' if c11 else 'did not advertise', 'advertised' if s11 else 'did not advertise'),
                     want + ' x%d' % len(obs['later']), got + ': ' + rest[:50].decode('latin1')))
+    elif case.get('answer'):
+        out += judge_replies(case, obs, want)
     return out
+
+def describe_after(case):
+    w = ws_of(case)
+    return 'the server <hello> was followed by %s' % ('%r %s' % (w.decode(), 'in the same send as its delimiter' if not case.get('ws_gap_ms', 0)
+                                                            else 'sent %d ms after its delimiter' % case['ws_gap_ms']) if w else 'nothing')
+
+def judge_replies(case, obs, framing):
+    """the requests left correctly framed and the server answered each in the negotiated framing: every reply is delivered to the
+    listeners once, after its request and before the next, with its message-id and text; no error; the session stays up"""
+    n = len(obs['later'])
+    how = '%s replies, %s' % (framing, describe_after(case))
+    if obs['answered'] < n:
+        return [('the peer could not answer %d correctly framed request(s) (harness)' % n, n, obs['answered'])]
+    out = []
+    if obs['errors']:
+        out.append(('the session reported an error to its listeners while reading correctly framed %s' % how, 'no error', obs['errors'][0]))
+    if not obs['connected']:
+        out.append(('the session is down after reading correctly framed %s' % how, 'connected', 'not connected'))
+    exp = [[k, '{%s}rpc-reply' % BASE_NS, str(k), reply_text(k)] for k in range(1, n + 1)]
+    act = []
+    for after, tag, mid, raw in obs['delivered']:
+        try: text = ET.fromstring(raw.encode() if isinstance(raw, str) else raw).findtext('{%s}data' % BASE_NS)
+        except ET.ParseError: text = 'unreadable: %r' % raw[:40]
+        act.append([after, tag, mid, text])
+    if act != exp:
+        out.append(('the replies delivered are not the replies the server sent, each after its request (%s)' % how,
+                    ['request %d -> message-id %s, %r' % (e[0], e[2], e[3]) for e in exp],
+                    ['after request %d: message-id %s, %r' % (a[0], a[2], a[3]) for a in act]))
+    return out
+
+# ------------------------------------------------------------------ the open finding of this family
+READ_MIN = 4096          # ncclient's documented BUF_SIZE: no transport read is smaller once that much is available
+SIG_WS_LATER = 'ws_after_hello_in_later_read_base11'
+def sig_of(case, obs, what):
+    """SIG_WS_LATER iff chunked framing was negotiated, white space follows the server hello's delimiter and it CAN reach the client
+    in a later read than the delimiter (sent on its own, or hello + white space exceed the smallest read), and the failure is the
+    session dying of a framing error on that stream.  A hello that fits one read with its white space in the same send is never waived."""
+    w = ws_of(case)
+    if not w or not has11(server_caps_of(case)): return None
+    if not (case.get('ws_gap_ms', 0) or case['size'] + len(w) > READ_MIN): return None
+    first, rest = split_wire(obs.get('wire', b''))
+    listed = hello_caps_of(first) if first is not None else None
+    if listed is None or not has11(listed): return None
+    died = any('NetconfFramingError' in e for e in obs.get('errors', [])) or (obs['result'] == 'TransportError' and obs.get('sid') is not None)
+    symptom = what.startswith(('the session reported an error', 'the session is down', 'the replies delivered are not', 'connect succeeded, then request'))
+    # ... or it died of it before the listener was there: requests accepted by send() were never written
+    unwritten = (what.startswith('framing after the hello is garbled') and not obs.get('connected') and not obs.get('delivered')
+                 and rest.count(b'\n##\n') < len(obs.get('later', [])))
+    return SIG_WS_LATER if (died and symptom) or unwritten else None
 
 # ------------------------------------------------------------------ model side: Negotiate.run (fn 4) on the client list SENT
 def model_call(case, obs):
@@ -326,6 +456,14 @@ def gen_cuts(rng, size):
     if r < 0.85: return [size - 6 + rng.randint(-2, 5)]                 # around / inside the delimiter
     return sorted(rng.randint(1, size - 1) for _ in range(rng.randint(2, 6)))
 
+WS = ['\n', '\r\n', ' ', '\n\n', ' \n', '\t', '\r\n ', '\n \n', '   ', '\r']
+def gen_ws(rng):
+    r = rng.random()
+    if r < 0.35: return ''
+    if r < 0.6: return '\n'
+    if r < 0.9: return rng.choice(WS)
+    return ''.join(rng.choice(' \t\r\n') for _ in range(rng.randint(1, 3)))
+
 def gen_cases(rng, tier, default_initial):
     """default_initial: the documented default client list (for keep_a_base only)"""
     quick = tier == 'quick'
@@ -333,7 +471,7 @@ def gen_cases(rng, tier, default_initial):
     def mk(transport, size, cuts=(), api='manager', profile='default', **k):
         c = dict(kind='realhello', transport=transport, api=api, profile=profile, extra=[], edits=[], size=size, cuts=list(cuts),
                  gap_ms=rng.choice([0, 2, 8]) if cuts else 0, server_base=rng.choice(SERVER_BASES[:4]), sid=rng.randrange(1, 4294967295),
-                 n_later=rng.choice([1, 2]))
+                 n_later=rng.choice([1, 2]), ws=gen_ws(rng), ws_gap_ms=0, answer=rng.random() < 0.8, reply_chunks=rng.choice([1, 1, 2, 3, 5]))
         c.update(k); return c
     # (a) size x segmentation. TLS: every record-size edge, one record, +-1, and beyond a record; SSH / Unix: a sample
     for e in EDGES:
@@ -357,6 +495,17 @@ def gen_cases(rng, tier, default_initial):
         if rng.random() < 0.15: c['profile'] = rng.choice(['junos', 'nexus', 'iosxr', 'huaweiyang', 'sros', 'alu'])
         keep_a_base(c, default_initial + c['extra'])
         cases.append(c)
+    # (d) what follows the server hello: white space after its delimiter x framing negotiated x transport, every request answered
+    for tr in ('unix', 'tls', 'ssh'):
+        for sb in ([B10, B11], [B10], [B11X, B10X]):
+            for ws in ((['\n', '\r\n', rng.choice(WS)] if sb != [B10] else ['\n', rng.choice(WS)]) if quick else [''] + WS + [gen_ws(rng) for _ in range(4)]):
+                cases.append(mk(tr, rng.randint(MIN_SIZE, 3000), server_base=sb, ws=ws, answer=True, n_later=2,
+                                api=rng.choice(['manager', 'manager', 'transport'])))
+        for _ in range(2 if quick else 20):
+            s = gen_size(rng, big_ok=False); cases.append(mk(tr, s, gen_cuts(rng, s), ws=rng.choice(WS), answer=True, n_later=2))
+        # white space in a send of its own: to a 1.0-only server, and (one case: the open finding) to a 1.1 server
+        for sb in ([[B10]] * (2 if quick else 8) + [[B10, B11]] * (1 if quick else 3)):
+            cases.append(mk(tr, rng.randint(MIN_SIZE, 3000), server_base=sb, ws=rng.choice(WS), ws_gap_ms=rng.choice([1, 5, 20]), answer=True, n_later=2))
     # (c) nc_params through the manager functions
     for tr in ('unix', 'tls', 'ssh'):
         for extra in ([[B11X], ['urn:x:1', B10]] if quick else [[B11X], ['urn:x:1', B10], [B11], ['http://example.com/cap?x=1&y=2']]):
@@ -370,7 +519,7 @@ def run_batch(cases, width=16):
             res[i] = run_case(cases[i])
         except Exception as e:
             res[i] = dict(hung=False, up=False, peer_err='harness:%s:%s' % (type(e).__name__, e), result='harness-error', message=None,
-                          hello_sent=False, hello_octets=0, n_pieces=0, elapsed=0, later=[], wire=b'')
+                          hello_sent=False, hello_octets=0, n_pieces=0, elapsed=0, later=[], wire=b'', answered=0, delivered=[], errors=[], connected=False)
     for k in range(0, len(cases), width):
         ths = [threading.Thread(target=one, args=(i,), daemon=True) for i in range(k, min(k + width, len(cases)))]
         for t in ths: t.start()
@@ -388,11 +537,11 @@ def check_cases(cases, confirm=2, width=16, max_report=3):
         probs = judge(c, o)
         if probs and reported >= max_report:
             o['unconfirmed'] = True; out.append((c, o, [])); continue
-        n = 0
+        n = 1 if probs and all(sig_of(c, o, p[0]) for p in probs) else 0        # the open finding: one confirmation
         while probs and n < confirm:
             n += 1
             o = run_batch([c], 1)[0]
             probs = judge(c, o)
-        if probs: reported += 1
+        if probs and not all(sig_of(c, o, p[0]) for p in probs): reported += 1
         out.append((c, o, probs))
     return out
